@@ -882,7 +882,14 @@ impl Reader for ValReader {
 
     fn read_bit_string<C: bitstring::Constraint>(&mut self) -> Result<(Vec<u8>, u64), Self::Error> {
         match self.next()? {
-            Val::Bits(b, n) => Ok((b, n)),
+            Val::Bits(mut b, n) => {
+                // the same value in a buffer that owns more octets than the bit length needs (what
+                // `BitVec::from_bytes(vec, bit_len)` keeps): nothing behind the bit length is part of the value
+                if n % 3 == 1 {
+                    b.extend_from_slice(&[0xEF, 0x12]);
+                }
+                Ok((b, n))
+            }
             v => Err(format!("expected bits, got {:?}", v)),
         }
     }
